@@ -146,7 +146,11 @@ void gen_history(Rng &r, const Profile &pf, Plan &plan) {
     }
     std::vector<std::string> groups = {"POINT", "ANALOG", "FORCE_PLATFORM"};
     unsigned ng = static_cast<unsigned>(r.below(3));
-    for (unsigned g = 0; g < ng; ++g) groups.push_back((r.chance(1, 3) ? "grp_" : "GRP") + gen_name(r, 8) + tos(g));
+    for (unsigned g = 0; g < ng; ++g) {
+        std::string prefix = r.chance(1, 3) ? "grp_" : "GRP";
+        std::string body = gen_name(r, 8);
+        groups.push_back(prefix + body + tos(g));
+    }
     unsigned ncp = static_cast<unsigned>(r.below(pf.n_custom_params + 1));
     std::vector<std::pair<std::string, std::string>> customs;
     for (unsigned k = 0; k < ncp; ++k) {
@@ -206,7 +210,12 @@ void gen_history(Rng &r, const Profile &pf, Plan &plan) {
         if (r.below(100) < pf.pct_mid_save / 3 + 1 && pf.pct_mid_save) saveStep(static_cast<int64_t>(r.below(4)));
         if (r.below(100) < pf.pct_mid_reload / 3 + 1 && pf.pct_mid_reload) { Step rl; rl.op = OP_RELOAD; rl.i = {static_cast<int64_t>(r.below(8))}; rl.fault = benign_faults(r, pf.benign_pct); frames.push_back(rl); }
         if (r.below(100) < pf.pct_print / 3 + 1 && pf.pct_print) { Step p; p.op = OP_PRINT; frames.push_back(p); }
-        if (r.chance(1, 12) && ncp) frames.push_back(make_param_step(r, pf, customs[r.below(customs.size())].first, customs[r.below(customs.size())].second, true));
+        if (r.chance(1, 12) && ncp) {
+            // one draw per statement: the evaluation order of function arguments differs between compilers
+            size_t gi = r.below(customs.size());
+            size_t ni = r.below(customs.size());
+            frames.push_back(make_param_step(r, pf, customs[gi].first, customs[ni].second, true));
+        }
         if (r.chance(1, 25)) { Step s3; s3.op = OP_SET_RATE; s3.i = {static_cast<int64_t>(r.below(2)), static_cast<int64_t>(RATES[r.below(8)])}; frames.push_back(s3); }
     }
     // order
